@@ -541,6 +541,9 @@ func walkAll(r *lazyproto.DecodeResult, path []int) (*lazyproto.DecodeResult, st
 	return r, ""
 }
 
+// when set, observe records every nested handle it obtains through NestedResults
+var nestedSeen *[]*lazyproto.DecodeResult
+
 func observe(r *lazyproto.DecodeResult, o aop) (out string) {
 	defer func() {
 		if x := recover(); x != nil {
@@ -568,6 +571,9 @@ func observe(r *lazyproto.DecodeResult, o aop) (out string) {
 		rs, err := rr.NestedResults(o.t)
 		if err != nil {
 			return errClass(err)
+		}
+		if nestedSeen != nil {
+			*nestedSeen = append(*nestedSeen, rs...)
 		}
 		s := make([]string, len(rs))
 		for i, x := range rs {
@@ -1248,12 +1254,16 @@ func main() {
 		streamC13(r)
 		streamC13Systematic(r.Fork("systematic"))
 		streamC13AfterError(r.Fork("aftererror"))
+		// a Decoder object's answers must not depend on what it decoded before (max-buffer / filter options trim the
+		// pooled result on Close): the answers checked above against the reference are those of a fresh decoder
+		streamC14SameShape(r.Fork("reuse"))
 	case "C14":
 		streamC14(r)
 		streamC14Held(r.Fork("held"))
 		streamC14SameShape(r.Fork("sameshape"))
 	case "C15":
 		streamC15(r)
+		streamC15Nested(r.Fork("nested"))
 	case "C10":
 		streamC10(r)
 	default:
@@ -1697,8 +1707,23 @@ func streamC14SameShape(r *hx.Rng) {
 					if err != nil || ra == nil {
 						return nil
 					}
+					var handles []*lazyproto.DecodeResult
+					if i%2 == 0 {
+						nestedSeen = &handles
+					}
 					sweep(ra, d)
+					nestedSeen = nil
+					if i%4 == 0 {
+						for _, h := range handles { // Close on a nested handle is a no-op (its parent owns it), whenever it is called
+							_ = h.Close()
+						}
+					}
 					_ = ra.Close()
+					if i%4 == 2 {
+						for _, h := range handles {
+							_ = h.Close()
+						}
+					}
 					rb, err := used.Decode(append([]byte{}, inB...))
 					if err != nil || rb == nil {
 						return []string{"decode-error"}
